@@ -296,21 +296,25 @@ def addChild (cfg : Cfg) (t : Tree) (p c : Nat) (lbl : Option Str) (strictArg : 
   if (t.kind p).isComposite = false then (t, .noMethod)
   else addChildCore cfg t p c lbl strictArg (fun t' => setParent cfg t' c (some p))
 
+/-- the attribute names `parent` / `_parent` -/
+def parentKey : Str := ['p', 'a', 'r', 'e', 'n', 't']
+def privateParentKey : Str := ['_', 'p', 'a', 'r', 'e', 'n', 't']
+
 /-- `c.parent = v` as Python dispatches it: `Composite.__setattr__` turns the assignment of a
 non-composite node to the attribute `parent` of a composite into `add_child(v, label="parent")` -/
 def assignParent (cfg : Cfg) (t : Tree) (c : Nat) (np : Option Nat) : Tree × Outcome :=
   match np with
   | some v =>
     if (t.kind c).isComposite = true ∧ (t.kind v).isComposite = false then
-      addChild cfg t c v (some "parent".toList) none
+      addChild cfg t c v (some parentKey) none
     else setParent cfg t c np
   | none => setParent cfg t c none
 
 /-- `p.key = c` (`Composite.__setattr__` with a node value) -/
 def setAttr (cfg : Cfg) (t : Tree) (p : Nat) (key : Str) (c : Nat) : Tree × Outcome :=
   if (t.kind p).isComposite = false then (t, .noMethod)
-  else if (t.kind c).isComposite = true ∧ (key = "parent".toList ∨ key = "_parent".toList) then
-    if key = "parent".toList then setParent cfg t p (some c)
+  else if (t.kind c).isComposite = true ∧ (key = parentKey ∨ key = privateParentKey) then
+    if key = parentKey then setParent cfg t p (some c)
     else (t, .noMethod)  -- raw write of the private attribute: not an operation of the protocol
   else addChild cfg t p c (some key) none
 
